@@ -152,7 +152,7 @@ pub fn run(args: &Args) -> Report {
         ks: if thorough { vec![0, 1, 2] } else { vec![0, 1] },
         env: 0,
         fault: 0,
-        total_wall: Duration::from_secs(if thorough { 1500 } else { 50 }),
+        total_wall: Duration::from_secs(if thorough { 1500 } else { 100 }),
         max_execs_per_case: if thorough { 400_000 } else { 50_000 },
         required_witnesses: xfer::W_CREDIT_ZERO | xfer::W_ACK_SENT | xfer::W_TRACING_ON,
         adaptive: thorough,
